@@ -640,9 +640,10 @@ package router
 //@   trusted
 //@   modifies nothing
 //@ func wrapUpstream(tag string, u upstream.Upstream) (w *upstreamWrapper)
-//@   trusted
+//@   props C10
 //@   modifies nothing
-//@   ensures w != nil && fresh(w) && w.u == u && w.tag == tag
+//@   ensures [C10:wraps-that-upstream] w != nil && fresh(w) && w.u == u && w.tag == tag
+//@   ensures w.queryTotal != nil && w.errTotal != nil && w.thread != nil && w.responseLatency != nil
 
 // initUpstream: an upstream is registered under its tag only; a missing or repeated tag is an error and
 // registers nothing.
@@ -912,10 +913,18 @@ package router
 //@   aftercall makeTlsConfig?: gTls = ret0
 //@   ensures [C17:handshake-with-the-verified-configuration] err == nil && useTls ==> gTls != nil && hs.TLSConfig == gTls
 
+// cacheCtl.Close: every configured back end is closed, once; nothing else happens; always nil
 //@ func (c *cacheCtl) Close() (err error)
-//@   trusted
+//@   props C18
 //@   requires c != nil
+//@   ghost nMem int = 0
+//@   ghost nRedis int = 0
+//@   oncall MemoryCache.Close?: nMem = nMem + 1
+//@   oncall RedisCache.Close?: nRedis = nRedis + 1
 //@   modifies nothing
+//@   ensures [C18:every-back-end-closed-once] err == nil && nMem == (c.memory != nil ? 1 : 0) && nRedis == (c.redis != nil ? 1 : 0)
+//@   callsite MemoryCache.Close?: arg0 == c.memory
+//@   callsite RedisCache.Close?: arg0 == c.redis
 
 // closeImpl (run at most once by close): works at every stage of start-up - in particular before the cache
 // exists - and calls every registered closer; it requires only what run() has established by then.
@@ -947,9 +956,14 @@ package router
 //@     invariant forall(k, 0, rangeindex_2 + 1, lowerB(rq.Name[k]) == lowerB(q.Name[k]))
 
 // ---- admission (C15): the cost of a connection / query is charged to the address of the client that caused it ----
+// netAddr2NetipAddr: the address of a UDP or TCP endpoint as it is; anything else (unix sockets, nil) has no
+// usable address
 //@ func netAddr2NetipAddr(v net.Addr) (ap netip.AddrPort)
-//@   trusted
+//@   props C15 C01
+//@   ghost nConv int = 0
+//@   oncall AddrPort?: nConv = nConv + 1
 //@   modifies nothing
+//@   ensures [C15:address-of-that-endpoint-or-none] nConv == ((typeIs(v, *net.UDPAddr) || typeIs(v, *net.TCPAddr)) ? 1 : 0) && (nConv == 0 ==> ap.ip.z == netip.z0)
 //@ func debugLogServerConnAccepted(c logConn, logger *zerolog.Logger)
 //@   trusted
 //@   modifies nothing
